@@ -222,6 +222,14 @@ def ser_rtp(sh, rng, seq):
         b += u16(0xBEDE) + u16(1) + [0xF1, 9, 9, 0]
     elif x == "profile-other":
         b += u16(0x1234) + u16(1) + [1, 2, 3, 4]
+    elif x == "one-short":      # the negotiated id (7) with ONE byte of data where two are expected
+        b += u16(0xBEDE) + u16(1) + [(7 << 4) | 0, seq & 255, 0, 0]
+    elif x == "two-short":      # two-byte form, one byte of data
+        b += u16(0x1000) + u16(1) + [7, 1, seq & 255, 0]
+    elif x == "two-empty":      # two-byte form, no data at all
+        b += u16(0x1000) + u16(1) + [7, 0, 0, 0]
+    elif x == "one-long":       # sixteen bytes of data under the negotiated id
+        b += u16(0xBEDE) + u16(5) + [(7 << 4) | 15] + [seq & 255] * 16 + [0, 0, 0]
     b += [(i * 7 + seq) & 255 for i in range(sh["plen"])]
     if pad == "ok":
         b += [0, 0, 0, 4]
@@ -307,6 +315,11 @@ def script_out(rng, kinds):
         for shape in ([0, 3] if ln > 1461 else [0, 1, 2, 3]):
             w += 1
             steps.append({"a": "wrtp", "s": 1, "w": w, "id": w, "len": ln, "shape": shape, "fail": False})
+    # every wire size around the pooled 1460 / 1500-byte buffers, reached through payload length x header size
+    for ln in range(1404, 1512, 3):
+        for shape in (0, 8, 9):
+            w += 1
+            steps.append({"a": "wrtp", "s": 1, "w": w, "id": w, "len": ln + (w % 3), "shape": shape, "fail": False})
     steps.append({"a": "rrtcp", "s": 1, "kind": "nack", "nums": [w, w - 1, w - 3, 301], "id": 1, "fail": False})
     steps += [{"a": "wait", "ms": 30}, {"a": "wrtp", "s": 1, "w": w + 1, "id": 9999, "len": 10, "shape": 0, "fail": False},
               {"a": "wait", "ms": 10}, {"a": "close"}]
